@@ -35,6 +35,7 @@ type Analysis struct {
 	// fnIndex: short name -> function, see FnName
 	fnIndex map[string][]*ssa.Function
 	CG      *callgraph.Graph
+	CHA     *callgraph.Graph // the class-hierarchy graph VTA refines (kept for the thorough-tier audit)
 	// repo-scoped edges
 	Out map[*ssa.Function][]Edge
 	In  map[*ssa.Function][]Edge
@@ -210,9 +211,22 @@ func Load(repoDir string, goarch string) (*Analysis, error) {
 			a.fnIndex[FnName(f)] = append(a.fnIndex[FnName(f)], f)
 		}
 	}
-	a.CG = vta.CallGraph(all, cha.CallGraph(prog))
+	a.CHA = cha.CallGraph(prog)
+	a.CG = vta.CallGraph(all, a.CHA)
 	a.buildScoped()
 	return a, nil
+}
+
+// WithCHA returns a view of the same program whose repo-scoped edges come from
+// the class-hierarchy graph instead of VTA (a superset of the dynamic edges).
+func (a *Analysis) WithCHA() *Analysis {
+	b := *a
+	b.CG = a.CHA
+	b.Out, b.In = map[*ssa.Function][]Edge{}, map[*ssa.Function][]Edge{}
+	b.NEdges = 0
+	b.Unresolved = nil
+	b.buildScoped()
+	return &b
 }
 
 // buildScoped restricts the VTA graph to in-repo callers/callees and adds
